@@ -7,11 +7,11 @@ package traversal
 
 // User callbacks are assumed not to modify the traversal's own state (budget, seen-link set).
 //@ functype AdvVisitFn(prog, n, reason) (err)
-//@   assigns nothing
+//@   assigns[C20] nothing
 //@ functype VisitFn(prog, n) (err)
-//@   assigns nothing
+//@   assigns[C20] nothing
 //@ functype LinkTargetNodePrototypeChooser(lnk, lnkCtx) (np, err)
-//@   assigns nothing
+//@   assigns[C20] nothing
 //@   ensures err == nil ==> np != nil
 
 // wfprog: what Progress.init establishes for a walk (configuration present and usable).
@@ -22,21 +22,21 @@ package traversal
 // ---- budgets: check-and-decrement, exactly once per step ----
 
 //@ func (Progress).checkNodeBudget() (err)
-//@   assigns prog.Budget.NodeBudget
+//@   assigns[C20] prog.Budget.NodeBudget
 //@   ensures[C15] prog.Budget == nil ==> err == nil
 //@   ensures[C15] prog.Budget != nil && old(prog.Budget.NodeBudget) <= 0 ==> iserr(err, "*ErrBudgetExceeded") && prog.Budget.NodeBudget == old(prog.Budget.NodeBudget)
 //@   ensures[C15] prog.Budget != nil && old(prog.Budget.NodeBudget) <= 0 ==> unbox(err, "*ErrBudgetExceeded").BudgetKind == "node" && unbox(err, "*ErrBudgetExceeded").Path == prog.Path
 //@   ensures[C15] prog.Budget != nil && old(prog.Budget.NodeBudget) > 0 ==> err == nil && prog.Budget.NodeBudget == old(prog.Budget.NodeBudget) - 1
 
 //@ func (Progress).checkLinkBudget(lnk) (err)
-//@   assigns prog.Budget.LinkBudget
+//@   assigns[C20] prog.Budget.LinkBudget
 //@   ensures[C15] prog.Budget == nil ==> err == nil
 //@   ensures[C15] prog.Budget != nil && old(prog.Budget.LinkBudget) <= 0 ==> iserr(err, "*ErrBudgetExceeded") && prog.Budget.LinkBudget == old(prog.Budget.LinkBudget)
 //@   ensures[C15] prog.Budget != nil && old(prog.Budget.LinkBudget) <= 0 ==> unbox(err, "*ErrBudgetExceeded").BudgetKind == "link" && unbox(err, "*ErrBudgetExceeded").Path == prog.Path && unbox(err, "*ErrBudgetExceeded").Link == lnk
 //@   ensures[C15] prog.Budget != nil && old(prog.Budget.LinkBudget) > 0 ==> err == nil && prog.Budget.LinkBudget == old(prog.Budget.LinkBudget) - 1
 
 //@ func (*Budget).Clone() (r)
-//@   assigns nothing
+//@   assigns[C20] nothing
 //@   ensures[C15] b == nil ==> r == nil
 //@   ensures[C15] b != nil ==> fresh(r) && r.NodeBudget == b.NodeBudget && r.LinkBudget == b.LinkBudget
 
@@ -44,7 +44,7 @@ package traversal
 
 //@ func (Progress).visit(ph, n, s, visitFn) (err)
 //@   requires prog.Cfg != nil && s != nil && visitFn != nil
-//@   assigns nothing
+//@   assigns[C20] nothing
 //@   before visitFn assert[C15] ph == phaseTraverse && (prog.PastStartAtPath || len(prog.Path.segments) >= len(prog.Cfg.StartAtPath.segments))
 //@   before visitFn assert[C07] carg0 == prog && ((carg2 == VisitReason_SelectionMatch && carg1 != nil) || (carg2 == VisitReason_SelectionCandidate && carg1 == n))
 //@   ensures[C15] ph != phaseTraverse ==> err == nil
@@ -53,7 +53,7 @@ package traversal
 
 //@ func (Progress).loadLink(lnk, v, parent) (r, err)
 //@   requires wfprog(prog) && lnk != nil
-//@   assigns foreign, prog.Budget.NodeBudget, prog.Budget.LinkBudget, map(prog.SeenLinks), ghostall("io.Reader.pos"), ghostall("io.Writer.fed"), ghostall("io.Writer.fedof"), ghostall("linking.BlockWriteCommitter.calls")
+//@   assigns[C20] foreign, prog.Budget.NodeBudget, prog.Budget.LinkBudget, map(prog.SeenLinks), ghostall("io.Reader.pos"), ghostall("io.Writer.fed"), ghostall("io.Writer.fedof"), ghostall("linking.BlockWriteCommitter.calls")
 //@   before LinkTargetNodePrototypeChooser assert[C15] prog.Budget != nil ==> old(prog.Budget.LinkBudget) > 0 && prog.Budget.LinkBudget == old(prog.Budget.LinkBudget) - 1
 //@   before Load assert[C15] prog.Budget != nil ==> old(prog.Budget.LinkBudget) > 0 && prog.Budget.LinkBudget == old(prog.Budget.LinkBudget) - 1
 //@   before Load assert[C07] carg2 == lnk
@@ -67,18 +67,18 @@ package traversal
 // A reifiable selector explores the empty segment to its (non-nil) next selector.
 //@ func (Progress).reify(n, s) (rn, rs, err)
 //@   requires wfprog(prog) && s != nil
-//@   assigns nothing
+//@   assigns[C20] nothing
 //@   after Explore assume result1 != nil || result0 != nil
 //@   ensures[C07] err == nil && rn != nil ==> rs != nil
 //@   ensures[C07] err != nil ==> rn == nil
 
 //@ func (Progress).walkBlock(n, s, visitFn) (err)
 //@   requires wfprog(prog) && n != nil && s != nil && visitFn != nil
-//@   assigns foreign, prog.Budget.NodeBudget, prog.Budget.LinkBudget, map(prog.SeenLinks), ghostall("io.Reader.pos"), ghostall("io.Writer.fed"), ghostall("io.Writer.fedof"), ghostall("linking.BlockWriteCommitter.calls")
+//@   assigns[C20] foreign, prog.Budget.NodeBudget, prog.Budget.LinkBudget, map(prog.SeenLinks), ghostall("io.Reader.pos"), ghostall("io.Writer.fed"), ghostall("io.Writer.fedof"), ghostall("linking.BlockWriteCommitter.calls")
 
 //@ func (Progress).walkAdv(ph, n, s, visitFn) (err)
 //@   requires wfprog(prog) && n != nil && s != nil && visitFn != nil
-//@   assigns foreign, prog.Budget.NodeBudget, prog.Budget.LinkBudget, map(prog.SeenLinks), ghostall("io.Reader.pos"), ghostall("io.Writer.fed"), ghostall("io.Writer.fedof"), ghostall("linking.BlockWriteCommitter.calls")
+//@   assigns[C20] foreign, prog.Budget.NodeBudget, prog.Budget.LinkBudget, map(prog.SeenLinks), ghostall("io.Reader.pos"), ghostall("io.Writer.fed"), ghostall("io.Writer.fedof"), ghostall("linking.BlockWriteCommitter.calls")
 //@   requires ph == phasePreload ==> prog.Cfg.Preloader != nil
 //@   before visit assert[C15] prog.Budget != nil ==> old(prog.Budget.NodeBudget) > 0 && prog.Budget.NodeBudget == old(prog.Budget.NodeBudget) - 1
 //@   before explore assert[C15] !haveStartAtPath || reachedStartAtPath || prog.PastStartAtPath || len(prog.Path.segments) >= len(prog.Cfg.StartAtPath.segments)
@@ -91,7 +91,7 @@ package traversal
 
 //@ func (Progress).explore(ph, s, n, visitFn, v, ps) (err)
 //@   requires wfprog(prog) && s != nil && n != nil && v != nil && visitFn != nil
-//@   assigns foreign, prog.Budget.NodeBudget, prog.Budget.LinkBudget, map(prog.SeenLinks), ghostall("io.Reader.pos"), ghostall("io.Writer.fed"), ghostall("io.Writer.fedof"), ghostall("linking.BlockWriteCommitter.calls")
+//@   assigns[C20] foreign, prog.Budget.NodeBudget, prog.Budget.LinkBudget, map(prog.SeenLinks), ghostall("io.Reader.pos"), ghostall("io.Writer.fed"), ghostall("io.Writer.fedof"), ghostall("linking.BlockWriteCommitter.calls")
 //@   requires ph == phasePreload ==> prog.Cfg.Preloader != nil
 //@   before walkAdv assert[C14,C07] len(carg0.Path.segments) == len(prog.Path.segments) + 1 && carg0.Path.segments[len(prog.Path.segments)] == ps
 //@   before walkAdv assert[C14,C07] forall i mathint :: 0 <= i && i < len(prog.Path.segments) ==> carg0.Path.segments[i] == prog.Path.segments[i]
@@ -111,9 +111,9 @@ package traversal
 //@   loop 1 invariant itr != nil
 
 //@ functype preload.Loader(ctx, lnk)
-//@   assigns foreign
+//@   assigns[C20] foreign
 //@ interface selector.Reifiable.NamedReifier() (r)
-//@   assigns nothing
+//@   assigns[C20] nothing
 
 // ---- C16: transforms are pure functional updates ----
 //
@@ -133,16 +133,16 @@ package traversal
 // A transform callback may allocate and may run nested traversals on the Progress it is given
 // (budgets), but does not touch assemblers it was not handed.
 //@ functype TransformFn(prog, n) (r, err)
-//@   assigns foreign, prog.Budget.NodeBudget, prog.Budget.LinkBudget
+//@   assigns[C20] foreign, prog.Budget.NodeBudget, prog.Budget.LinkBudget
 
 // Map keys are data-model strings (typed keys are compared through their representation, assumed
 // to carry the same string).
 //@ interface schema.TypedNode.Representation() (r)
-//@   assigns nothing
+//@   assigns[C20] nothing
 //@   ensures r != nil && r.val == recv.val
 //@ func asPathSegment(n) (r)
 //@   requires n != nil && datamodel.vkind(n.val) == datamodel.Kind_String
-//@   assigns nothing
+//@   assigns[C20] nothing
 //@   ensures[C16] r.i < 0 && r.s == datamodel.vstr(n.val)
 
 //@ pred wfxprog(prog Progress) = prog.Cfg != nil && prog.Cfg.LinkTargetNodePrototypeChooser != nil
@@ -150,7 +150,7 @@ package traversal
 
 //@ func (Progress).focusedTransform(n, na, p, fn, createParents) (err)
 //@   requires wfxprog(prog) && na != nil && fn != nil
-//@   assigns foreign, prog.Budget.NodeBudget, prog.Budget.LinkBudget, datamodel.slot(na), ghostall("io.Reader.pos"), ghostall("io.Writer.fed"), ghostall("io.Writer.fedof"), ghostall("linking.BlockWriteCommitter.calls")
+//@   assigns[C20] foreign, prog.Budget.NodeBudget, prog.Budget.LinkBudget, datamodel.slot(na), ghostall("io.Reader.pos"), ghostall("io.Writer.fed"), ghostall("io.Writer.fedof"), ghostall("linking.BlockWriteCommitter.calls")
 //   the callback sees the node currently at the target; its result is what is assigned
 //@   before fn@0 assert[C16] carg1 == n && len(p.segments) == 0
 //@   before fn@1 assert[C16] carg1 == n3 && len(p.segments) == 1
@@ -195,32 +195,32 @@ package traversal
 
 // ---- C16: the walking transform ----
 
+// (*Config).init is inlined into (*Progress).init: it writes a default only where the field is nil,
+// which (*Progress).init arranges to happen only on a Config it has just allocated.
 //@ func (*Config).init()
-//@   requires tc != nil
-//@   assigns tc.Ctx, tc.LinkTargetNodePrototypeChooser
-//@   ensures tc.LinkTargetNodePrototypeChooser != nil && (old(tc.LinkTargetNodePrototypeChooser) != nil ==> tc.LinkTargetNodePrototypeChooser == old(tc.LinkTargetNodePrototypeChooser))
+//@   inline
 //@ func (*Progress).init()
 //@   requires prog != nil
-//@   assigns prog.Cfg, prog.SeenLinks, prog.Cfg.Ctx, prog.Cfg.LinkTargetNodePrototypeChooser
-//@   ensures prog.Cfg != nil && prog.Cfg.LinkTargetNodePrototypeChooser != nil && (old(prog.Cfg) != nil ==> prog.Cfg == old(prog.Cfg))
+//@   assigns[C20] prog.Cfg, prog.SeenLinks
+//@   ensures prog.Cfg != nil && prog.Cfg.LinkTargetNodePrototypeChooser != nil
+//@   ensures old(prog.Cfg) != nil && old(prog.Cfg.Ctx) != nil && old(prog.Cfg.LinkTargetNodePrototypeChooser) != nil ==> prog.Cfg == old(prog.Cfg)
+//@   ensures old(prog.Cfg) != nil && prog.Cfg != old(prog.Cfg) ==> fresh(prog.Cfg) && prog.Cfg.LinkSystem == old(prog.Cfg.LinkSystem) && prog.Cfg.LinkVisitOnlyOnce == old(prog.Cfg.LinkVisitOnlyOnce) && prog.Cfg.StartAtPath == old(prog.Cfg.StartAtPath) && prog.Cfg.Preloader == old(prog.Cfg.Preloader)
 //@   ensures old(prog.Cfg) != nil && old(prog.Cfg.LinkTargetNodePrototypeChooser) != nil ==> prog.Cfg.LinkTargetNodePrototypeChooser == old(prog.Cfg.LinkTargetNodePrototypeChooser)
 //@   ensures prog.Cfg.LinkVisitOnlyOnce ==> prog.SeenLinks != nil && fresh(prog.SeenLinks)
 //@   ensures !prog.Cfg.LinkVisitOnlyOnce ==> prog.SeenLinks == old(prog.SeenLinks)
 
 //@ func contains(interest, candidate) (r)
-//@   assigns nothing
+//@   assigns[C20] nothing
 //@   loop 0 invariant 0 - 1 <= rangeindex && rangeindex < len(interest)
 
 //@ func (Progress).WalkTransforming(n, s, fn) (r, err)
 //@   requires wfprog(prog) && n != nil && s != nil && fn != nil
-//@   assigns foreign, prog.Cfg.Ctx, prog.Cfg.LinkTargetNodePrototypeChooser, prog.Budget.NodeBudget, prog.Budget.LinkBudget, map(prog.SeenLinks), ghostall("io.Reader.pos"), ghostall("io.Writer.fed"), ghostall("io.Writer.fedof"), ghostall("linking.BlockWriteCommitter.calls")
-//@   ensures prog.Cfg.LinkTargetNodePrototypeChooser == old(prog.Cfg.LinkTargetNodePrototypeChooser)
+//@   assigns[C20] foreign, prog.Budget.NodeBudget, prog.Budget.LinkBudget, map(prog.SeenLinks), ghostall("io.Reader.pos"), ghostall("io.Writer.fed"), ghostall("io.Writer.fedof"), ghostall("linking.BlockWriteCommitter.calls")
 //@   before walkTransforming assert[C16] carg1 == n && carg2 == s && carg3 == fn && carg0.Path == prog.Path && carg0.Budget == prog.Budget
 
 //@ func (Progress).walkTransforming(n, s, fn) (r, err)
 //@   requires wfprog(prog) && n != nil && s != nil && fn != nil
-//@   assigns foreign, prog.Cfg.Ctx, prog.Cfg.LinkTargetNodePrototypeChooser, prog.Budget.NodeBudget, prog.Budget.LinkBudget, map(prog.SeenLinks), ghostall("io.Reader.pos"), ghostall("io.Writer.fed"), ghostall("io.Writer.fedof"), ghostall("linking.BlockWriteCommitter.calls")
-//@   ensures prog.Cfg.LinkTargetNodePrototypeChooser == old(prog.Cfg.LinkTargetNodePrototypeChooser)
+//@   assigns[C20] foreign, prog.Budget.NodeBudget, prog.Budget.LinkBudget, map(prog.SeenLinks), ghostall("io.Reader.pos"), ghostall("io.Writer.fed"), ghostall("io.Writer.fedof"), ghostall("linking.BlockWriteCommitter.calls")
 //   the callback sees the node at the current position; a changed node replaces it, an unchanged
 //   one is walked further with the same selector
 //@   before fn assert[C16] carg1 == n && carg0 == prog
@@ -229,8 +229,7 @@ package traversal
 
 //@ func (Progress).walk_transform_iterateList(n, s, fn, attn) (r, err)
 //@   requires wfprog(prog) && n != nil && s != nil && fn != nil && datamodel.vkind(n.val) == datamodel.Kind_List
-//@   assigns foreign, prog.Cfg.Ctx, prog.Cfg.LinkTargetNodePrototypeChooser, prog.Budget.NodeBudget, prog.Budget.LinkBudget, map(prog.SeenLinks), ghostall("io.Reader.pos"), ghostall("io.Writer.fed"), ghostall("io.Writer.fedof"), ghostall("linking.BlockWriteCommitter.calls")
-//@   ensures prog.Cfg.LinkTargetNodePrototypeChooser == old(prog.Cfg.LinkTargetNodePrototypeChooser)
+//@   assigns[C20] foreign, prog.Budget.NodeBudget, prog.Budget.LinkBudget, map(prog.SeenLinks), ghostall("io.Reader.pos"), ghostall("io.Writer.fed"), ghostall("io.Writer.fedof"), ghostall("linking.BlockWriteCommitter.calls")
 //   an unexplored child is copied as it is; an explored child is replaced by the transform of
 //   that child, walked with the selector Explore returned, one path segment deeper
 //@   before AssignNode if next assert[C16] carg1 == next
@@ -241,15 +240,14 @@ package traversal
 //@   before WalkTransforming assert[C16] datamodel.vkind(datamodel.vchild(n.val, itr.pos - 1)) != datamodel.Kind_Link ==> carg1.val == datamodel.vchild(n.val, itr.pos - 1)
 //@   before Explore assert[C16] carg1 == n && carg2 == ps
 //@   ensures[C16] err == nil ==> r != nil && datamodel.vlen(r.val) == datamodel.vlen(n.val)
-//@   loop 0 assigns foreign, prog.Cfg.Ctx, prog.Cfg.LinkTargetNodePrototypeChooser, prog.Budget.NodeBudget, prog.Budget.LinkBudget, map(prog.SeenLinks), itr.pos, lstBldr.acc, ghostall("io.Reader.pos"), ghostall("io.Writer.fed"), ghostall("io.Writer.fedof"), ghostall("linking.BlockWriteCommitter.calls")
+//@   loop 0 assigns foreign, prog.Budget.NodeBudget, prog.Budget.LinkBudget, map(prog.SeenLinks), itr.pos, lstBldr.acc, ghostall("io.Reader.pos"), ghostall("io.Writer.fed"), ghostall("io.Writer.fedof"), ghostall("linking.BlockWriteCommitter.calls")
 //@   loop 0 invariant itr != nil && itr.src == n.val && 0 <= itr.pos && itr.pos <= datamodel.vlen(n.val) && lstBldr != nil && lstBldr.slot == bldr && bldr.role == 0
 //@   loop 0 invariant datamodel.vlen(lstBldr.acc) == itr.pos
-//@   loop 0 invariant prog.Cfg == old(prog.Cfg) && prog.Cfg.LinkTargetNodePrototypeChooser == old(prog.Cfg.LinkTargetNodePrototypeChooser) && prog.Budget == old(prog.Budget) && prog.SeenLinks == old(prog.SeenLinks) && prog.Path == old(prog.Path)
+//@   loop 0 invariant prog.Cfg == old(prog.Cfg) && prog.Budget == old(prog.Budget) && prog.SeenLinks == old(prog.SeenLinks) && prog.Path == old(prog.Path)
 
 //@ func (Progress).walk_transform_iterateMap(n, s, fn, attn) (r, err)
 //@   requires wfprog(prog) && n != nil && s != nil && fn != nil && datamodel.vkind(n.val) == datamodel.Kind_Map
-//@   assigns foreign, prog.Cfg.Ctx, prog.Cfg.LinkTargetNodePrototypeChooser, prog.Budget.NodeBudget, prog.Budget.LinkBudget, map(prog.SeenLinks), ghostall("io.Reader.pos"), ghostall("io.Writer.fed"), ghostall("io.Writer.fedof"), ghostall("linking.BlockWriteCommitter.calls")
-//@   ensures prog.Cfg.LinkTargetNodePrototypeChooser == old(prog.Cfg.LinkTargetNodePrototypeChooser)
+//@   assigns[C20] foreign, prog.Budget.NodeBudget, prog.Budget.LinkBudget, map(prog.SeenLinks), ghostall("io.Reader.pos"), ghostall("io.Writer.fed"), ghostall("io.Writer.fedof"), ghostall("linking.BlockWriteCommitter.calls")
 //@   before AssignString assert[C16] carg1 == datamodel.vkeystr(n.val, itr.pos - 1)
 //@   before AssignNode if next assert[C16] carg1 == next
 //@   before AssignNode if next assert[C16] carg1 != nil
@@ -260,8 +258,21 @@ package traversal
 //@   before Explore assert[C16] carg1 == n && carg2 == ps
 //@   ensures[C16] err == nil ==> r != nil && datamodel.vlen(r.val) == datamodel.vlen(n.val)
 //@   ensures[C16] err == nil ==> forall i mathint :: 0 <= i && i < datamodel.vlen(n.val) ==> datamodel.vstr(datamodel.vkey(r.val, i)) == datamodel.vkeystr(n.val, i)
-//@   loop 0 assigns foreign, prog.Cfg.Ctx, prog.Cfg.LinkTargetNodePrototypeChooser, prog.Budget.NodeBudget, prog.Budget.LinkBudget, map(prog.SeenLinks), itr.pos, mapBldr.acc, mapBldr.pend, mapBldr.haskey, ghostall("io.Reader.pos"), ghostall("io.Writer.fed"), ghostall("io.Writer.fedof"), ghostall("linking.BlockWriteCommitter.calls")
+//@   loop 0 assigns foreign, prog.Budget.NodeBudget, prog.Budget.LinkBudget, map(prog.SeenLinks), itr.pos, mapBldr.acc, mapBldr.pend, mapBldr.haskey, ghostall("io.Reader.pos"), ghostall("io.Writer.fed"), ghostall("io.Writer.fedof"), ghostall("linking.BlockWriteCommitter.calls")
 //@   loop 0 invariant itr != nil && itr.src == n.val && 0 <= itr.pos && itr.pos <= datamodel.vlen(n.val) && mapBldr != nil && mapBldr.slot == bldr && bldr.role == 0 && !mapBldr.haskey
 //@   loop 0 invariant datamodel.vlen(mapBldr.acc) == itr.pos
-//@   loop 0 invariant prog.Cfg == old(prog.Cfg) && prog.Cfg.LinkTargetNodePrototypeChooser == old(prog.Cfg.LinkTargetNodePrototypeChooser) && prog.Budget == old(prog.Budget) && prog.SeenLinks == old(prog.SeenLinks) && prog.Path == old(prog.Path)
+//@   loop 0 invariant prog.Cfg == old(prog.Cfg) && prog.Budget == old(prog.Budget) && prog.SeenLinks == old(prog.SeenLinks) && prog.Path == old(prog.Path)
 //@   loop 0 invariant forall i mathint :: 0 <= i && i < itr.pos ==> datamodel.vstr(datamodel.vkey(mapBldr.acc, i)) == datamodel.vkeystr(n.val, i)
+
+// ---- C20: entry points; a traversal writes nothing shared (the Config is only read) ----
+//@ func (Progress).WalkAdv(n, s, fn) (err)
+//@   requires n != nil && s != nil && fn != nil && prog.Cfg != nil && prog.Cfg.LinkSystem.DecoderChooser != nil && prog.Cfg.LinkSystem.HasherChooser != nil
+//@   assigns[C20] foreign, prog.Budget.NodeBudget, prog.Budget.LinkBudget, map(prog.SeenLinks), ghostall("io.Reader.pos"), ghostall("io.Writer.fed"), ghostall("io.Writer.fedof"), ghostall("linking.BlockWriteCommitter.calls")
+//@ func (Progress).WalkMatching(n, s, fn) (err)
+//@   requires n != nil && s != nil && fn != nil && prog.Cfg != nil && prog.Cfg.LinkSystem.DecoderChooser != nil && prog.Cfg.LinkSystem.HasherChooser != nil
+//@   assigns[C20] foreign, prog.Budget.NodeBudget, prog.Budget.LinkBudget, map(prog.SeenLinks), ghostall("io.Reader.pos"), ghostall("io.Writer.fed"), ghostall("io.Writer.fedof"), ghostall("linking.BlockWriteCommitter.calls")
+//@ func (Progress).WalkMatching$1(prog, n, tr) (err)
+//@   assigns[C20] nothing
+//@ func (Progress).FocusedTransform(n, p, fn, createParents) (r, err)
+//@   requires n != nil && fn != nil && prog.Cfg != nil && prog.Cfg.LinkSystem.DecoderChooser != nil && prog.Cfg.LinkSystem.HasherChooser != nil && prog.Cfg.LinkSystem.EncoderChooser != nil
+//@   assigns[C20] foreign, prog.Budget.NodeBudget, prog.Budget.LinkBudget, ghostall("io.Reader.pos"), ghostall("io.Writer.fed"), ghostall("io.Writer.fedof"), ghostall("linking.BlockWriteCommitter.calls")
